@@ -185,6 +185,33 @@ fn sigmf_files(spec: &Value, datatype: &str, data: &[u8]) -> std::path::PathBuf 
     }
 }
 
+/// Delay<u8> with a set_delay() call before its `at`-th work() call.
+struct DelaySet {
+    inner: Delay<u8>,
+    new: usize,
+    at: usize,
+    calls: usize,
+}
+impl rustradio::block::BlockName for DelaySet {
+    fn block_name(&self) -> &str {
+        "DelaySet"
+    }
+}
+impl rustradio::block::BlockEOF for DelaySet {
+    fn eof(&mut self) -> bool {
+        self.inner.eof()
+    }
+}
+impl rustradio::block::Block for DelaySet {
+    fn work(&mut self) -> rustradio::Result<rustradio::block::BlockRet<'_>> {
+        self.calls += 1;
+        if self.calls == self.at {
+            self.inner.set_delay(self.new);
+        }
+        self.inner.work()
+    }
+}
+
 macro_rules! rig {
     ($b:expr, [$($i:expr),*], [$($o:expr),*]) => {
         Ok(Rig { block: Box::new($b), ins: vec![$($i),*], outs: vec![$($o),*] })
@@ -318,6 +345,13 @@ pub fn make(spec: &Value, rng: &mut Rng) -> Result<Rig, String> {
             let (i, r) = ring_in::<u8>(spec, 0, rng);
             let (b, o) = Delay::new(r, pu(spec, "delay", 2) as usize);
             rig!(b, [i], [ring_out(o)])
+        }
+        "DelaySet<u8>" => {
+            // Delay whose delay is changed (set_delay) before its `at`-th work() call
+            let (i, r) = ring_in::<u8>(spec, 0, rng);
+            let (b, o) = Delay::new(r, pu(spec, "delay", 3) as usize);
+            let w = DelaySet { inner: b, new: pu(spec, "new_delay", 1) as usize, at: pu(spec, "at", 2) as usize, calls: 0 };
+            rig!(w, [i], [ring_out(o)])
         }
         "Skip<Big>" => {
             let (i, r) = ring_in::<Big>(spec, 0, rng);
